@@ -171,10 +171,24 @@ def tweak(t, rng, tg):
     gen.strip_ids(t)
 
 
-def run_impl(t):
+def node_at(root, path):
+    for i in path:
+        root = root.children[i]
+    return root
+
+
+def run_impl(t, edits=None):
     impl.reset()
     root = impl.build(t)
     pmap = treeval.paths(root)
+    if edits:
+        # the same node objects evaluated, edited through the API, and evaluated again: the second result describes the edited tree
+        try:
+            impl.limited(evaluate.tree, root, [])
+        except Exception as e:
+            return None, f"evaluate.tree raised {type(e).__name__}: {e}"
+        for path, content in edits:
+            node_at(root, path).content = content
     sentinel = ("sentinel",)
     ws = [sentinel]
     try:
@@ -204,8 +218,32 @@ def run(ctx):
         tweak(t, rng, tg)
         if rng.random() < 0.3:
             gen.mutate(t, rng, tg, rng.choice([1, 2, 4])); gen.strip_ids(t)
-        got, err = run_impl(t)
-        case = {"tree": t}
+        if rng.random() < 0.2:
+            # rule-bearing elements inside additionalMetadata/metadata are elements of the tree like any other
+            inner = tg.valid_tree(rng.choice(["creator", "dataset", "individualName", "dataTable", "otherEntity", "methodStep"]), rng, maxdepth=2, rep=1)
+            tweak(inner, rng, tg)
+            am = impl.T("additionalMetadata", None, [impl.T("metadata", None, [inner])])
+            t[8].append(am)
+            gen.strip_ids(t)
+        edits = None
+        if rng.random() < 0.3:
+            edits = []
+            for pth, x in gen.nodes_of(t):
+                if x[1] in ("abstract", "para", "markdown", "title", "description", "keyword", "electronicMailAddress", "givenName", "userId") and rng.random() < 0.5:
+                    new = rng.choice([None, "", words(rng.choice([1, 4, 5, 19, 20, 21])), (x[2] or "") + " " + words(3)])
+                    edits.append([list(pth), new])
+            t0 = t
+            t = copy.deepcopy(t)
+            for pth, new in edits:
+                x = t
+                for j in pth:
+                    x = x[8][j]
+                x[2] = new
+            got, err = run_impl(t0, edits)
+            case = {"tree": t0, "edits": edits, "tree_after_edits": t}
+        else:
+            got, err = run_impl(t)
+            case = {"tree": t}
         if err:
             fails.append({"case": case, "what": err})
             continue
@@ -246,10 +284,11 @@ def replay(payload, drv):
     c = payload.get("case") or {}
     if "tree" not in c:
         return {"case": c}
-    got, err = run_impl(copy.deepcopy(c["tree"]))
-    out = {"implementation": got, "error": err, "expected_subset": sorted((a, list(b)) for a, b in expected(c["tree"]))}
+    got, err = run_impl(copy.deepcopy(c["tree"]), c.get("edits"))
+    final = c.get("tree_after_edits") or c["tree"]
+    out = {"implementation": got, "error": err, "expected_subset": sorted((a, list(b)) for a, b in expected(final))}
     if drv:
-        out["model"] = drv.batch([{"op": "evaluate", "tree": c["tree"], "parent": None}])[0]
+        out["model"] = drv.batch([{"op": "evaluate", "tree": final, "parent": None}])[0]
     return out
 
 
